@@ -27,22 +27,22 @@ pub(crate) fn build_completions(len: u32) -> Completions {
     }
 }
 
-static mut CQ_HEAD0: u32 = 0;
-static mut HEAD_MOVED_DURING_PROCESSING: bool = false;
+static mut CQ_HEAD0: crate::verif_stubs::V<u32> = crate::verif_stubs::V::new(0);
+static mut HEAD_MOVED_DURING_PROCESSING: crate::verif_stubs::V<bool> = crate::verif_stubs::V::new(false);
 
 /// yield hook: every lock taken while completions are processed happens
 /// before the new head is published (slots are handed back only after reading).
 fn observe_head(_kind: u32) {
     unsafe {
-        if k::cq_mem().head.load(Ordering::Relaxed) != CQ_HEAD0 {
-            HEAD_MOVED_DURING_PROCESSING = true;
+        if k::cq_mem().head.load(Ordering::Relaxed) != CQ_HEAD0.v {
+            HEAD_MOVED_DURING_PROCESSING.v = true;
         }
     }
 }
 
-static mut ENTER_POST: u32 = 0;
-static mut ENTER_CALLS: u32 = 0;
-static mut ENTER_ERRNO: i32 = 0;
+static mut ENTER_POST: crate::verif_stubs::V<u32> = crate::verif_stubs::V::new(0);
+static mut ENTER_CALLS: crate::verif_stubs::V<u32> = crate::verif_stubs::V::new(0);
+static mut ENTER_ERRNO: crate::verif_stubs::V<i32> = crate::verif_stubs::V::new(0);
 
 /// Model of io_uring_enter(GETEVENTS), success: publishes the ENTER_POST
 /// completions the harness prepared by advancing the CQ tail. Returns the
@@ -56,10 +56,10 @@ unsafe fn enter_posts(
     _size: usize,
 ) -> libc::c_int {
     unsafe {
-        ENTER_CALLS += 1;
+        ENTER_CALLS.v += 1;
         let mem = k::cq_mem();
         let t = mem.tail.load(Ordering::Relaxed);
-        mem.tail.store(t.wrapping_add(ENTER_POST), Ordering::Relaxed);
+        mem.tail.store(t.wrapping_add(ENTER_POST.v), Ordering::Relaxed);
     }
     0
 }
@@ -88,8 +88,8 @@ unsafe fn enter_fails(
     _size: usize,
 ) -> libc::c_int {
     unsafe {
-        ENTER_CALLS += 1;
-        *libc::__errno_location() = ENTER_ERRNO;
+        ENTER_CALLS.v += 1;
+        *libc::__errno_location() = ENTER_ERRNO.v;
     }
     -1
 }
@@ -99,9 +99,9 @@ fn ring(cq_len: u32, head: u32, tail: u32) -> (Submissions, Completions) {
     mem.head.store(head, Ordering::Relaxed);
     mem.tail.store(tail, Ordering::Relaxed);
     unsafe {
-        CQ_HEAD0 = head;
-        HEAD_MOVED_DURING_PROCESSING = false;
-        ENTER_CALLS = 0;
+        CQ_HEAD0.v = head;
+        HEAD_MOVED_DURING_PROCESSING.v = false;
+        ENTER_CALLS.v = 0;
     }
     let mut table = k::base_table();
     table.yield_point = Some(observe_head);
@@ -154,9 +154,9 @@ macro_rules! poll_order {
         let (sq, mut cq) = ring(len, head, tail);
         let res = cq.poll(sq.shared(), Some(Duration::ZERO));
         assert!(res.is_ok());
-        assert!(unsafe { ENTER_CALLS } == 0, "completions available: no kernel entry");
+        assert!(unsafe { ENTER_CALLS.v } == 0, "completions available: no kernel entry");
         assert!(mem.head.load(Ordering::Relaxed) == tail, "published head == consumed tail");
-        assert!(!unsafe { HEAD_MOVED_DURING_PROCESSING }, "head published only after the last read");
+        assert!(!unsafe { HEAD_MOVED_DURING_PROCESSING.v }, "head published only after the last read");
         $(
             if $j < n {
                 assert!(ops::tag(&ops_[$j]) == ops::Tag::Done, "published completion delivered");
@@ -193,7 +193,7 @@ macro_rules! order_harness {
         #[kani::stub(<core::io::CustomOwner as core::ops::Drop>::drop, crate::verif_stubs::custom_owner_drop_noop)]
         #[kani::stub(crate::lock, crate::verif_stubs::lock_model)]
         fn $name() {
-            unsafe { ENTER_POST = 0 };
+            unsafe { ENTER_POST.v = 0 };
             poll_order!($len, $head, $maxn, [$($j),*]);
         }
     };
@@ -259,11 +259,11 @@ fn poll_mixed(len: u32, maxn: u32) {
         }
     )* } }
     slot!(0, 1, 2, 3, 4, 5, 6, 7);
-    unsafe { ENTER_POST = 0 };
+    unsafe { ENTER_POST.v = 0 };
     let (sq, mut cq) = ring(len, head, tail);
     let res = cq.poll(sq.shared(), Some(Duration::ZERO));
     assert!(res.is_ok());
-    assert!(unsafe { ENTER_CALLS } == 0, "completions available: no kernel entry");
+    assert!(unsafe { ENTER_CALLS.v } == 0, "completions available: no kernel entry");
     assert!(mem.head.load(Ordering::Relaxed) == tail, "published head == consumed tail");
     kani::cover!(tail < head, "batch spans the u32 wrap of the counters");
     kani::cover!(n == maxn);
@@ -324,10 +324,10 @@ fn c05_cq_poll_empty_enters() {
         mem.cqes[idx].user_data = ops::user_data_single(&ops_[1]);
         mem.cqes[idx].res = 101;
     }
-    unsafe { ENTER_POST = post };
+    unsafe { ENTER_POST.v = post };
     let (sq, mut cq) = ring(len, head, head);
     let res = cq.poll(sq.shared(), None);
-    assert!(unsafe { ENTER_CALLS } == 1, "empty queue: exactly one io_uring_enter");
+    assert!(unsafe { ENTER_CALLS.v } == 1, "empty queue: exactly one io_uring_enter");
     assert!(res.is_ok());
     assert!(mem.head.load(Ordering::Relaxed) == head.wrapping_add(post), "published head == consumed tail");
     assert!(k::wakes(0) == (post >= 1) as u32 && k::wakes(1) == (post >= 2) as u32, "delivered exactly once");
@@ -361,7 +361,7 @@ fn c05_cq_poll_enter_fails() {
     kani::assume(outcome < 4);
     let (sq, mut cq) = ring(2, head, head);
     unsafe {
-        ENTER_ERRNO = match outcome {
+        ENTER_ERRNO.v = match outcome {
             0 => libc::ETIME,
             1 => libc::EINTR,
             2 => libc::EBADF,
@@ -372,7 +372,7 @@ fn c05_cq_poll_enter_fails() {
     table.io_uring_enter2 = Some(enter_fails);
     k::install(table);
     let res = cq.poll(sq.shared(), None);
-    assert!(unsafe { ENTER_CALLS } == 1, "exactly one io_uring_enter");
+    assert!(unsafe { ENTER_CALLS.v } == 1, "exactly one io_uring_enter");
     assert!(res.is_ok() == (outcome < 2), "timeout/interrupt is not an error, everything else is");
     assert!(k::cq_mem().head.load(Ordering::Relaxed) == head, "nothing consumed");
     kani::cover!(outcome == 0);
